@@ -271,6 +271,40 @@ class C03(core.PropBase):
                     d = G.deep(doc)
                     place(rng, d, site, sym, rng.choice(["replace", "append", "tight"]))
                     yield {"kind": "job", "doc": d, "decode": True, "tag": "crowded"}
+        # 2d. the SAME Python object at two places of the document (what a YAML alias gives: `script: *s`): step 2 reusing
+        #     step 1's script / action / args list / parameter space / environments, with references that are in scope at
+        #     one of the two places only.  Every place is checked for itself.
+        for r in range(40 if thorough else 10):
+            doc = self.rich_job(rng)
+            if len(doc["steps"]) < 2:
+                continue
+            a, b = doc["steps"][0], doc["steps"][1]
+            what = rng.choice(["script", "onRun", "args", "parameterSpace", "stepEnvironments", "hostRequirements", "embeddedFiles"])
+            try:
+                if what == "script":
+                    b["script"] = a["script"]
+                elif what == "onRun":
+                    b["script"]["actions"]["onRun"] = a["script"]["actions"]["onRun"]
+                elif what == "args":
+                    a["script"]["actions"]["onRun"].setdefault("args", ["x"])
+                    b["script"]["actions"]["onRun"]["args"] = a["script"]["actions"]["onRun"]["args"]
+                elif what == "embeddedFiles":
+                    b["script"]["embeddedFiles"] = a["script"]["embeddedFiles"]
+                else:
+                    b[what] = a[what]
+            except (KeyError, TypeError):
+                continue
+            yield {"kind": "job", "doc": doc, "decode": True, "tag": "shared-object"}
+            # and with an out-of-scope / in-scope-at-one-place reference put into the shared part
+            syms, misses = all_symbols(doc)
+            sites = [st for st in job_sites(doc) if isinstance(get_at(doc, st), str) and st[:2] == ("steps", 0)]
+            for sym in rng.sample(syms, min(len(syms), 4)) + misses[:2]:
+                if not sites:
+                    break
+                d = doc            # NOT a deep copy per variant: copy once, keeping the aliasing, then place
+                d = G.deep(doc)
+                place(rng, d, rng.choice(sites), sym, "tight")
+                yield {"kind": "job", "doc": d, "decode": True, "tag": "shared-object"}
         # 3. several references at once (errors must not mask one another)
         for i in range(3000 if thorough else 500):
             doc = self.rich_job(rng) if i % 3 else G.gen_job_template(rng)
@@ -299,7 +333,7 @@ class C03(core.PropBase):
     def rule(self, tier):
         return ("valid generated job/environment templates (references in scope by construction); full matrix: every format-string site of rich "
                 "2-3 step templates x every symbol defined anywhere in the document (own and sibling step/environment), near misses and misspellings, "
-                "placed replace/append/tight; crowded scopes (16-48 job parameters) x one-component / prefix-less / misspelt names; '{{' in non-format-string fields; 2-6 simultaneous references; junk documents (type confusion at 1-3 random "
+                "placed replace/append/tight; documents in which two steps share one Python object (script / action / args / parameter space / environments: what a YAML alias produces); crowded scopes (16-48 job parameters) x one-component / prefix-less / misspelt names; '{{' in non-format-string fields; 2-6 simultaneous references; junk documents (type confusion at 1-3 random "
                 "positions) through the walker only. distinct = by document; non-trivial = document with at least one placed reference or junk value")
 
     def samples(self, tier, seed):
